@@ -2,18 +2,8 @@
 
 package multiproof
 
-import (
-	"github.com/crate-crypto/go-ipa/bandersnatch/fr"
-)
-
 // VerifLabels returns the live Fiat-Shamir label slices in a fixed order
 // (verification only).
 func VerifLabels() [][]byte {
 	return [][]byte{labelC, labelZ, labelY, labelD, labelE, labelT, labelR, labelDomainSep}
-}
-
-// VerifGroupPolynomials exposes the per-evaluation-point aggregation
-// (verification only).
-func VerifGroupPolynomials(fs [][]fr.Element, powersOfR []fr.Element, zs []uint8) [256][]fr.Element {
-	return groupPolynomialsByEvaluationPoint(fs, powersOfR, zs)
 }
